@@ -22,7 +22,7 @@ import (
 // coq/Run/RunSeg.v) and the same executor; they differ in their generators.
 
 func init() {
-	streams["format"] = &stream{gen: genFormat, exec: execSeg}
+	streams["format"] = &stream{gen: genFormat, exec: execSizes}
 	streams["segcrash"] = &stream{gen: genSegCrash, exec: execSeg}
 	streams["corrupt"] = &stream{gen: genCorrupt, exec: execSegWatched}
 	streams["sizes"] = &stream{gen: genSizes, exec: execSizes}
@@ -392,6 +392,9 @@ func segHeader(r *rand.Rand) (string, uint64, int) {
 // through the tail reader and the sealed reader, file dump.
 func genFormat(c *ctx, emit func(string)) {
 	r := rand.New(rand.NewSource(c.seed))
+	// one batch above 8 MiB (implementation only): exactly one commit frame per batch
+	emit(fmt.Sprintf("#big %x", 9<<20))
+	emit(fmt.Sprintf("#bigmid %x", 9<<20))
 	for i := 0; i < c.n; i++ {
 		hdr, base, limit := segHeader(r)
 		next := base
